@@ -50,6 +50,47 @@ def _eng(profile, quick, thorough):
 
 
 PROPS = {
+    "C01": {
+        "engines": [_eng("match", 25000, 800000), _eng("", 10000, 300000)],
+        "nontrivial": _eng_nontrivial, "rule": _ENG_RULE + "Profile `match`: more chains, keyed/whole/count targets, exclusions, negation.",
+        "modelled": _ENG_MODELLED, "assumptions": _ENG_ASSUME,
+        "open_statements": ["regex-key selectors and @rx are outside the model (compared by the monitor only)",
+                            "C01_link_values is stated for operators without macros (StaticArg); with macros the sequential "
+                            "semantics is what the model and the correspondence define"],
+    },
+    "C04": {
+        "engines": [{"name": "engrep", "quick": 2500, "thorough": 60000, "shards": 8}, _eng("cache", 10000, 300000)],
+        "nontrivial": _eng_nontrivial,
+        "rule": _ENG_RULE + "engrep: each case is executed 13 times on fresh WAFs (Go randomises map iteration per range), "
+                "all repetitions must give the same canonical outcome and equal the model's.",
+        "modelled": _ENG_MODELLED, "assumptions": _ENG_ASSUME,
+        "open_statements": ["C04_state_perm needs commutation hypotheses on the observed projection; they are discharged for "
+                            "concrete action classes only by the correspondence (generator emits order-free actions on "
+                            "multi-valued targets)"],
+    },
+    "C09": {
+        "engines": [_eng("acct", 25000, 800000), _eng("", 10000, 300000)],
+        "nontrivial": _eng_nontrivial, "rule": _ENG_RULE + "Profile `acct`: more setvar (+N, -N, assign, delete, macro keys/values), chains, multiMatch.",
+        "modelled": _ENG_MODELLED, "assumptions": _ENG_ASSUME,
+        "open_statements": ["C09_sum as a closed arithmetic formula (value = old + N·matches) is not yet a theorem: it needs "
+                            "the Itoa/Atoi round-trip for the model's digit rendering; the per-match fold (C09_once_per_match) "
+                            "and single-step setvar lemmas are proved, the sums are compared by the correspondence"],
+    },
+    "C12": {
+        "engines": [_eng("cache", 25000, 800000), {"name": "engrep", "quick": 1500, "thorough": 40000, "shards": 8}],
+        "nontrivial": _eng_nontrivial, "rule": _ENG_RULE + "Profile `cache`: rules sharing full and partial transformation lists over the same and different targets, repeated names/values, MATCHED_VAR targets.",
+        "modelled": _ENG_MODELLED + " The cache itself is modelled in lean/Coraza/Model/TfCache.lean; the engine model is cache-free, "
+                    "C12_cache_transparent proves them equal, the correspondence compares the real (cached) engine with the cache-free model.",
+        "assumptions": _ENG_ASSUME + ["transformations are pure (C14)", "transformationID interning is injective on chains (hypothesis `Interned`)"],
+        "open_statements": [],
+    },
+    "C17": {
+        "engines": [_eng("ctl", 25000, 800000), _eng("", 10000, 300000)],
+        "nontrivial": _eng_nontrivial, "rule": _ENG_RULE + "Profile `ctl`: ctl:ruleRemoveById (ids, ranges), ByTag, ruleRemoveTargetById placed at every position.",
+        "modelled": _ENG_MODELLED, "assumptions": _ENG_ASSUME,
+        "open_statements": ["configuration-time directives (SecRuleRemoveBy*, SecRuleUpdateTargetBy*, SecRuleUpdateActionById) are "
+                            "not yet driven through the correspondence; C17_remove_static states their meaning on the model"],
+    },
     "C02": {
         "engines": [_eng("api", 25000, 800000), _eng("", 10000, 300000)],
         "nontrivial": _eng_nontrivial, "rule": _ENG_RULE + "Profile `api`: out-of-order/repeated calls, many disruptive rules.",
